@@ -549,7 +549,60 @@ def classify(case, rec):
             bad_props.append(k)
             structural.append(k)
     return ('valid' if ok else 'invalid'), et, {'props': props, 'bad': sorted(set(bad_props)), 'bad_values': bad_values,
-                                                'structural': sorted(set(structural))}
+                                                'structural': sorted(set(structural)),
+                                                'native': {k: {as_str(v): v for v in vs} for k, vs in raw.items()}}
+
+
+def sdk_normal_form(dt, v):
+    """What the SDK's own normalization makes of one value, when the gate takes the result; None otherwise."""
+    from edxml.ontology import DataType
+    from vf.props import c03
+    try:
+        out = sorted(DataType(dt).normalize_objects([v]))
+    except Exception:
+        return None
+    if len(out) == 1 and c03.spec_verdict(dt, None, out[0]) is True:
+        return out[0]
+    return None
+
+
+def fully_repaired(case, et, exp):
+    """The events that the configured repairs may leave when both are configured for the offending properties: an offending
+    value is normalized where normalization gives a valid object, or dropped where it may be dropped (when both are possible
+    either may happen: normalization stops at the first value it cannot handle, and what is dropped first depends on which
+    property the validator complains about). A list of acceptable property dictionaries; None when some offending value can
+    neither be normalized nor dropped, or something mandatory would be lost."""
+    import itertools
+    norm, drop = effective_repair(case, et)
+    cfg = {'type.a': SETUP['ra'], 'type.b': SETUP['rb']}.get(et)
+    if cfg is None or not exp['bad'] or exp.get('structural') or not all(b in exp.get('bad_values', {}) for b in exp['bad']):
+        return None
+    choices = []      # per (property, offending value): the things that may become of it (None = dropped)
+    for k, vs in exp['props'].items():
+        for v in vs:
+            if v not in exp['bad_values'].get(k, []):
+                choices.append([(k, v)])
+                continue
+            nf = sdk_normal_form(OBJECT_TYPES[cfg['props'][k]], exp.get('native', {}).get(k, {}).get(v, v)) if k in norm else None
+            alts = ([(k, nf)] if nf is not None else []) + ([(k, None)] if k in drop else [])
+            if k not in drop:
+                # normalization stops at the first value it cannot handle and the repair loop then only drops: whether a value
+                # that can only be normalized gets its turn depends on the order of the properties; nothing is demanded then
+                return None
+            choices.append(alts)
+    if len(choices) > 12:
+        return None
+    out = []
+    for combo in itertools.product(*choices):
+        props = {}
+        for k, v in combo:
+            if v is not None:
+                props.setdefault(k, set()).add(v)
+        ok = all(k in cfg['optional'] or props.get(k) for k in cfg['props']) and \
+            all(k in cfg['multi'] or len(v) <= 1 for k, v in props.items())
+        if ok:
+            out.append({k: sorted(v) for k, v in props.items()})
+    return out or None
 
 
 def drop_repaired(case, et, exp):
@@ -626,6 +679,19 @@ class C17(Property):
             yield gen_lookup_case(rng)
         for _ in range(40 if tier == 'quick' else 800):
             yield gen_harness_case(rng)
+        for _ in range(12 if tier == 'quick' else 300):
+            # one property that normalization repairs next to one that can only be dropped, both repairs configured
+            case = gen_case(rng)
+            case.update(repair_normalize=True, repair_drop=True, multi_yield=False)
+            case.pop('explicit_repair', None)
+            rec = rng.choice([
+                {'type': 'ra', 'name': rng.choice(['alice', 'bob']), 'sub': {'n': rng.choice(['x', 256, -1])}, 'flag': 'True',
+                 'tags': ['t1'], 'items': []},
+                {'type': 'rb', 'title': rng.choice(['alice', 'bob']), 'meta': {'when': '2020-01-01T12:00:00+02:00', 'count': rng.choice(['x', 300])}},
+                {'type': 'rb', 'title': 'carol', 'meta': {'when': 'yesterday', 'count': rng.choice([' 7', '007'])}}])
+            k = rng.randint(0, len(case['ops']))
+            case['ops'] = case['ops'][:k] + [['record', rec]] + case['ops'][k:]
+            yield case
         for i in range(200 if tier == 'quick' else 5000):
             case = gen_case(rng)
             if i % 8 == 7:
@@ -788,11 +854,12 @@ class C17(Property):
                     want_min.append({'type': et, 'source': cur, 'props': sorted([k, v] for k, v in exp['props'].items())})
                 if status == 'invalid' and cur in defined and not case.get('multi_yield'):
                     fixed = drop_repaired(case, et, exp)
-                    if fixed is not None:
+                    variants = [fixed] if fixed is not None else (None if case.get('explicit_repair') else fully_repaired(case, et, exp))
+                    if variants:
                         if c is not None:
-                            return ('record %s gives an event that the configured drop repair (%s) makes valid, but process() raised %s' % (
-                                json.dumps(op[1], ensure_ascii=False, default=str)[:200], effective_repair(case, et)[1], c))
-                        want_min.append({'type': et, 'source': cur, 'props': sorted([k, v] for k, v in fixed.items())})
+                            return ('record %s gives an event that the configured repairs (normalize %s, drop %s) make valid, but process() raised %s' % (
+                                json.dumps(op[1], ensure_ascii=False, default=str)[:200], *effective_repair(case, et), c))
+                        want_min.append({'type': et, 'source': cur, 'any_of': [sorted([k, v] for k, v in f.items()) for f in variants]})
                 if status == 'invalid' and c is None and not ignoring and beyond_repair(case, et, exp):
                     return ('record %s gives an invalid event (%s), invalid events are not ignored and the configured repair (normalize %s, '
                             'drop %s) does not cover that, but process() did not raise' % (
@@ -800,9 +867,13 @@ class C17(Property):
         got = [{'type': e['type'], 'source': e['source'], 'props': e['props']} for e in obs['events']]
         # every written event is valid (the validating parser accepted it); the valid-as-generated ones appear in order
         it = iter(got)
+        def matches(g, w):
+            if 'any_of' in w:
+                return g['type'] == w['type'] and g['source'] == w['source'] and g['props'] in w['any_of']
+            return g == w
         for w in want_min:
             for g in it:
-                if g == w:
+                if matches(g, w):
                     break
             else:
                 return 'the event generated from a valid record is missing from the output (or out of order): %s' % json.dumps(w, ensure_ascii=False)[:300]
